@@ -220,6 +220,20 @@ func c14(ctx *Ctx) {
 	docOf["C14/B/additionalProperties-name"] = `{"additionalProperties":"v0","AdditionalProperties":"v1","extra":7}`
 	wantOf["C14/B/additionalProperties-name"] = map[string]any{"additionalProperties": "v0", "AdditionalProperties": "v1", refmodel.AdditionalKey: map[string]any{"extra": jsonv.MustParse("7")}}
 	c14Batch(ctx, cases, docOf, wantOf)
+	// definition names that collide three ways, flat and with a nested reference from the second to the third: distinct
+	// schema types must get distinct type names - judged behaviourally (every value decodes per its own definition)
+	var defCases []SCase
+	for _, nested := range []bool{false, true} {
+		defCases = append(defCases, collisionTriples("C14", func(i int) J {
+			return []J{{"type": "object", "properties": J{"a": J{"type": "string"}}, "required": A{"a"}}, {"type": "object", "properties": J{"b": J{"type": "integer"}}, "required": A{"b"}},
+				{"type": "object", "properties": J{"c": J{"type": "boolean"}}}}[i]
+		}, nested)...)
+	}
+	runBehaviour(ctx, behaviour{Name: "defnames", Cases: defCases, Values: true, Devs: []string{"LEN_BYTES"},
+		OnBuildErr: func(sc *SCase, msg string) {
+			ctx.Run.Violation("definition-names-not-compiling", fmt.Sprintf("%s: colliding definition names: emitted code does not compile: %s", sc.ID, firstLine(msg)),
+				map[string]any{"kind": "gen", "files": sc.Case().Files, "args": sc.Case().Args, "cfg": sc.Case().Cfg})
+		}})
 	c14PartC(ctx)
 	ctx.Run.Cov["states"] = st
 	ctx.Run.Cov["transitions"] = tr
